@@ -74,6 +74,10 @@ def gen_plan(seed, k):
         actors["p%d" % p] = ops
     for p in range(nprod):
         actors["main"].append({"op": "join", "actor": "p%d" % p})
+    # bounded liveness once the producers are done: 300 further steps (or quiescence) must have processed everything
+    total_events = sum(1 for a in actors if a.startswith("p") for o in actors[a] if o["op"] == "recv")
+    drain_steps = total_events * (nraise + neps + 6) + 200
+    actors["main"].append({"op": "drain", "i": 0, "n": drain_steps})
     actors["main"].append({"op": "recv", "i": 0, "name": "quit"})
     actors["stepper"] = [{"op": "run", "i": 0, "block": block, "until": ["FINISHED"], "max": 40000 if block == 0 else 4000}]
     pols = ["random", "random", "sticky"] if block == 0 else ["random", "random", "sticky", "pct"]
@@ -178,6 +182,20 @@ def oracle(plan, res):
         for n in sends:
             if n not in seen:
                 v.append(("C08.exactly-once", "event %s was handed to receive() (which returned) before quit, but was never processed" % n))
+    # bounded liveness: everything handed over before the drain must be processed before quit is even sent
+    drain_done = None
+    quit_sent = None
+    for r in lines:
+        if r[KIND] == "op>" and r[6] == "drain":
+            drain_done = r[SEQ]
+        if r[KIND] == "op<" and r[6] == "recv" and r[SESS] == "main":
+            quit_sent = r[SEQ]
+    if drain_done is not None and quit_sent is not None:
+        seqof = {n: s for (n, s) in processed}
+        for n, (s0, s1, task) in sends.items():
+            if n != "quit" and s1 < drain_done and (n not in seqof or seqof[n] > quit_sent):
+                v.append(("C08.stranded", "event %s was handed to receive() (returned at seq %d), the interpreter then made enough further steps for every queued event or went quiescent (seq %d), yet the event was not processed before the next event was sent" % (n, s1, drain_done)))
+                break
     # per-sender order and real-time FIFO
     pos = {n: i for i, (n, s) in enumerate(processed)}
     snames = [n for n in sends if n in pos]
